@@ -153,7 +153,9 @@ ContainerItem(derive, s, it, pos) ==
 -----------------------------------------------------------------------------
 (* The builder + machine                                                   *)
 \* shape: "named" (struct with named fields: field 1, optionally field 2), "named_attrs" (field 2 is the magic `attrs`),
-\*        "unit", "newtype", "tuple2", "enum" (variants 1, optionally 2), "enum0", "union"
+\*        "unit", "newtype", "tuple2", "tuple0" (`struct D();`), "named0" (`struct D {}`), "enum" (variants 1, optionally 2), "enum0", "union"
+\* style of the first variant: "unit", "newtype", "struct", "tuple2", "tuple0" (`V1()`), "struct0" (`V1 {}`) - drawn with the body, not with its options
+VStyles == {"unit", "newtype", "struct", "tuple2", "tuple0", "struct0"}
 VARIABLES derive, shape, cont, f1, f2, v1, v2, phase
 \* cont/f1/f2/v1/v2: [items: the option items written, s: option record, d: diagnostics so far, style (variants)]
 vars == <<derive, shape, cont, f1, f2, v1, v2, phase>>
@@ -162,7 +164,8 @@ El(s0) == [items |-> <<>>, s |-> s0, d |-> <<>>, style |-> "unit", present |-> F
 
 Init ==
   /\ derive \in Derives /\ shape \in Shapes
-  /\ cont = El(ContInit) /\ f1 = El(FieldInit) /\ f2 = El(FieldInit) /\ v1 = El(VariantInit) /\ v2 = El(VariantInit)
+  /\ cont = El(ContInit) /\ f1 = El(FieldInit) /\ f2 = El(FieldInit) /\ v2 = El(VariantInit)
+  /\ \E st \in (IF shape = "enum" THEN VStyles ELSE {"unit"}) : v1 = [El(VariantInit) EXCEPT !.style = st]
   /\ phase = "container"
 
 ItemPos(el, items) == <<el, Len(items) + 1>>
@@ -193,9 +196,9 @@ AddField2 ==
 
 AddVariant1 ==
   /\ phase = "body1" /\ shape = "enum" /\ Len(v1.items) < MaxVariant1
-  /\ \E it \in VariantItems, st \in (IF v1.items = <<>> THEN {"unit", "newtype", "struct", "tuple2"} ELSE {v1.style}) :
-       LET r == VariantItem(v1.s, it, ItemPos("v1", v1.items), st) IN
-       v1' = [v1 EXCEPT !.items = Append(@, it), !.s = r.s, !.d = @ \o r.d, !.style = st, !.present = TRUE]
+  /\ \E it \in VariantItems :
+       LET r == VariantItem(v1.s, it, ItemPos("v1", v1.items), v1.style) IN
+       v1' = [v1 EXCEPT !.items = Append(@, it), !.s = r.s, !.d = @ \o r.d, !.present = TRUE]
   /\ UNCHANGED <<derive, shape, cont, f1, f2, v2, phase>>
 AddVariant2 ==
   /\ phase \in {"body1", "body2"} /\ shape = "enum" /\ Len(v2.items) < MaxVariant2
@@ -214,7 +217,8 @@ Spec == Init /\ [][Next]_vars
 (* What the derive returns (options/*::new, then code generation)          *)
 
 \* members that exist in the body for this shape
-V1Style == IF v1.items = <<>> THEN "unit" ELSE v1.style
+V1Style == v1.style
+TupleN(st) == st \in {"tuple2", "tuple0"}          \* a tuple body FromMeta has no parser for: not exactly one field
 FieldOk(f) == f.d = <<>>
 
 \* validate_body and the body-level representability checks, in the code's order
@@ -230,13 +234,14 @@ BodyDiags ==
          \o (IF shape = "named_attrs" /\ elem /\ ~cont.s.forward THEN <<Dg("attrs-without-forward", <<"f2", 0>>)>> ELSE <<>>)
     [] shape \in {"unit", "newtype"} ->
          IF derive = "FromMeta" /\ cont.s.from_word THEN <<Dg("from_word-unit-newtype", <<"c", 0>>)>> ELSE <<>>
-    [] shape = "tuple2" ->
+    [] TupleN(shape) ->
          IF derive = "FromMeta" THEN <<Dg("body-unrepresentable", <<"body", 0>>)>> ELSE <<>>
+    [] shape = "named0" -> <<>>
     [] shape = "enum0" -> IF elem THEN <<Dg("body-unrepresentable", <<"body", 0>>)>> ELSE <<>>
     [] shape = "enum" ->
          IF elem THEN <<Dg("body-unrepresentable", <<"v1", 0>>)>> \o (IF v2.present THEN <<Dg("body-unrepresentable", <<"v2", 0>>)>> ELSE <<>>)   \* one per variant
          ELSE v1.d \o v2.d
-              \o (IF v1.d = <<>> /\ V1Style = "tuple2" /\ ~v1.s.skip THEN <<Dg("body-unrepresentable", <<"v1", 0>>)>> ELSE <<>>)   \* a skipped variant is never parsed
+              \o (IF v1.d = <<>> /\ TupleN(V1Style) /\ ~v1.s.skip THEN <<Dg("body-unrepresentable", <<"v1", 0>>)>> ELSE <<>>)   \* a skipped variant is never parsed
               \o (LET w1 == v1.d = <<>> /\ v1.s.word = "true" w2 == v2.d = <<>> /\ v2.s.word = "true" IN
                   (IF (w1 \/ w2) /\ cont.s.from_word THEN <<Dg("word+from_word", <<"c", 0>>)>> ELSE <<>>)
                   \o (IF w1 /\ w2 THEN <<Dg("multi-word", <<"v1", 0>>), Dg("multi-word", <<"v2", 0>>)>> ELSE <<>>))
@@ -310,12 +315,13 @@ BodyViolations ==
          \cup (IF shape = "named_attrs" /\ elem /\ ~Given("forward_attrs") THEN {Viol("attrs-without-forward", {<<"f2", 0>>})} ELSE {})
     [] shape \in {"unit", "newtype"} ->
          IF derive = "FromMeta" /\ Given("from_word") THEN {Viol("from_word-unit-newtype", {<<"c", i>> : i \in AnyIx})} ELSE {}
-    [] shape = "tuple2" -> IF derive = "FromMeta" THEN {Viol("body-unrepresentable", {<<"body", 0>>})} ELSE {}
+    [] TupleN(shape) -> IF derive = "FromMeta" THEN {Viol("body-unrepresentable", {<<"body", 0>>})} ELSE {}
+    [] shape = "named0" -> {}
     [] shape = "enum0" -> IF elem THEN {Viol("body-unrepresentable", {<<"body", 0>>, <<"call_site", 0>>})} ELSE {}
     [] shape = "enum" ->
          IF elem THEN {Viol("body-unrepresentable", {<<"v1", 0>>, <<"v2", 0>>, <<"body", 0>>})}
          ELSE ElementViolations("v1", v1.items, VariantKnown, {}, V1Style) \cup ElementViolations("v2", v2.items, VariantKnown, {}, "unit")
-              \cup (IF V1Style = "tuple2" /\ ~(\E i \in 1..Len(v1.items) : v1.items[i].name = "skip" /\ GoodForm("skip", v1.items[i].form))
+              \cup (IF TupleN(V1Style) /\ ~(\E i \in 1..Len(v1.items) : v1.items[i].name = "skip" /\ GoodForm("skip", v1.items[i].form))
                     THEN {Viol("body-unrepresentable", {<<"v1", i>> : i \in AnyIx})} ELSE {})
               \cup (IF ((WordTrue(v1) /\ V1Style = "unit") \/ WordTrue(v2)) /\ Given("from_word")
                     THEN {Viol("word+from_word", {<<"c", i>> : i \in AnyIx} \cup {<<"v1", i>> : i \in AnyIx} \cup {<<"v2", i>> : i \in AnyIx})} ELSE {})
